@@ -36,3 +36,11 @@ pub proof fn fact_artifact_map_eq()
     ensures <ArtifactMap as vstd::std_specs::cmp::PartialEqSpec>::obeys_eq_spec(),
             forall|a: ArtifactMap, b: ArtifactMap| #[trigger] vstd::std_specs::cmp::PartialEqSpec::eq_spec(&a, &b) == (a == b),
 {}
+// assumed: an artifact map value is determined by its view (clone() returns an equal value)
+#[verifier::external_body]
+pub proof fn fact_artifact_map_ext()
+    ensures forall|a: ArtifactMap, b: ArtifactMap| #![trigger a@, b@] a@ == b@ ==> a == b,
+{}
+impl Clone for VirtualTargetPath { #[verifier::external_body] fn clone(&self) -> (r: Self) ensures r == *self { unimplemented!() } }
+impl Clone for HashAlgorithm { #[verifier::external_body] fn clone(&self) -> (r: Self) ensures r == *self { unimplemented!() } }
+impl Clone for HashValue { #[verifier::external_body] fn clone(&self) -> (r: Self) ensures r == *self { unimplemented!() } }
